@@ -178,6 +178,35 @@ def h_arith(E, expr):
     return 'value'
 
 
+ANTICIPATED = ['A^i', 'A^(2*i)', 'A^0.5', 'A^-1', 'A^[1,2]', 'A^A', '2^A', 'v^2', 'A+v', 'A+1', 'v/A', 'A/v', 'v*v*v', 'A*v*v*v', 'sin(A)', 'abs(A)', 'trace(v)', 'cross(v,v)', 'A^1.5',
+               'det(v)', 'norm(A,v)', 'min(A,1)', 'arctan2(0,0)', '1/0', 'ln(0)', 'fact(-1)' if False else 'A*[1,2,3]', '[1,2]+[1,2,3]', 'A^(1/0)', 'tan(pi/2)^-1*0+1/0', '[[1,2],[3]]', '[1,2']
+
+
+def h_anticipated(E, idx, negative_powers):
+    """anticipated evaluation problems keep a SPECIFIC student-facing class and message - never the generic 'Could not check input'"""
+    from mitxgraders import MatrixGrader
+    from mitxgraders.exceptions import StudentFacingError, ConfigError
+    from mitxgraders.helpers.calc.exceptions import CalcError
+    expr = ANTICIPATED[idx]
+    c = E.real('c', 1, 2)
+    g = MatrixGrader(answers='A*c', user_constants={'c': c}, variables=[], samples=1, max_array_dim=2, negative_powers=negative_powers,
+                     sample_from={}, user_functions={})
+    # A and v are concrete matrix / vector constants of the problem
+    from mitxgraders.helpers.calc.math_array import MathArray
+    g = MatrixGrader(answers='A*c', user_constants={'c': c, 'A': MathArray([[1.0, 2.0], [3.0, 5.0]]), 'v': MathArray([1.0, 2.0])}, samples=1, max_array_dim=2,
+                     negative_powers=negative_powers)
+    try:
+        r = g(None, expr)
+        E.check('graded-without-error', r['ok'] in (True, False, 'partial'))
+        return 'graded'
+    except ConfigError as e:
+        E.check('anticipated-problem-is-not-a-config-error', False)
+        return 'ConfigError'
+    except StudentFacingError as e:
+        E.check('anticipated-problem-keeps-specific-class-and-message', isinstance(e, CalcError) or not str(e).startswith('Invalid Input: Could not check input'))
+        return type(e).__name__
+
+
 ARITH = ['a/b', 'a/(b-c)', '1/a/b', 'a||b', '0||a', 'a^-1', 'a^-2/b', '(a-b)^-1', 'a/b/c', 'a||b||c', 'csc(a)+1/b', 'a/(b*c)', '(a+b)/(a+b)', 'a/(b||c)', '1/(a||b)']
 BR_OPEN = '([{'
 BR_CLOSE = ')]}'
@@ -293,6 +322,9 @@ def harnesses(tier):
     add(h_wrapper, 'wrapper', {}, 'every catalogue exception x debug x single/list input x message shape', validate=False)
     add(h_text_inputs, 'text_inputs', {}, '3 variants x 14 input-object shapes', validate=False)
     add(h_text_inputs_call, 'text_inputs_call', {}, '4 graders x configured/inferred answers x debug x 14 input-object shapes', validate=False)
+    for i in range(len(ANTICIPATED)):
+        for npow in (True, False):
+            add(h_anticipated, 'anticipated', dict(i=i, negative_powers=npow), repr(ANTICIPATED[i]), validate=False)
     for ex in ARITH:
         add(h_arith, 'arith', dict(expr=ex), 'a,b,c any reals in [-2,2]')
     add(h_brackets, 'brackets', dict(N=8 if T else 6), 'all Unicode strings up to that length', max_paths=300000 if T else None)
